@@ -6,7 +6,7 @@
    specification, not re-proved here).  to_f64 is the model of
    vals.ConvertToFloat64; has_inexact l := some element of l is a float. *)
 From Coq Require Import QArith Floats.SpecFloat.
-From verif Require Import lib.Base model.C11_Num model.C12 proofs.C11_proofs proofs.C12_proofs.
+From verif Require Import lib.Base model.C11_Num model.C12 proofs.C11_proofs proofs.C12_dyadic proofs.C12_proofs proofs.C12_roundtrip.
 Open Scope Z_scope.
 
 (* + with a float among the arguments: every argument converted, then a left
@@ -89,19 +89,45 @@ Theorem C12_exact_num_nonfinite : forall f, f_is_finite f = false ->
 Proof. exact exact_num_nonfinite. Qed.
 Print Assumptions C12_exact_num_nonfinite.
 
-(* FULL STATEMENT (exact_inexact_roundtrip): for every valid finite double f with
-   |f| < 2^63,  exists v, call CExactNum [NFloat f] None = RVals [v] /\ to_f64 v = f.
-   (Beyond 2^63 it is false by the documented rule: exact-num 1e30 is a big int
-   and inexact-num of it is +Inf.)  The general proof needs the correctness of
-   binary_normalize's rounding on arbitrary dyadic rationals (Flocq-level); proved
-   here for the doubles of all integers of magnitude <= 2^53; the rest is covered
-   by the correspondence check (exact-num on random bit patterns, subnormals). *)
-Theorem C12_exact_inexact_roundtrip_partial : forall z, Z.abs z <= 9007199254740992 ->
-  let f := to_f64 (NInt z) in
-  call CInexactNum [NInt z] None = RVals [NFloat f]
-  /\ exists v, call CExactNum [NFloat f] None = RVals [v] /\ to_f64 v = f.
-Proof. exact exact_inexact_roundtrip_partial. Qed.
-Print Assumptions C12_exact_inexact_roundtrip_partial.
+(* the conversion of an exactly representable number is exact: whenever
+   mx*2^ex = m*2^e (dy_eq) and (m, e) is a canonical binary64 mantissa/exponent pair
+   (bounded), rounding mx*2^ex to the nearest double gives exactly that double.
+   (f_of_dyadic is what the model's int->double and rational->double conversions end
+   in.)  Proved on SpecFloat by integer reasoning only. *)
+Theorem C12_conversion_exact_on_representable : forall s mx ex m e,
+  bounded prec emax m e = true -> dy_eq mx ex m e ->
+  f_of_dyadic s mx ex = S754_finite s m e.
+Proof. exact f_of_dyadic_exact. Qed.
+Print Assumptions C12_conversion_exact_on_representable.
+
+(* exact-num then inexact-num gives EVERY finite double back, bit for bit, with
+   exactly the two exceptions the documentation implies:
+   - f = -0.0 (exact numbers have no negative zero: the result is +0.0);
+   - fits_int64 f = false, i.e. f = (-1)^s * m * 2^e with e >= 0 whose (integer) value
+     lies outside [-2^63, 2^63): exact-num gives a big integer and inexact-num of it is
+     the infinity of its sign (C12_roundtrip_outside_int64). *)
+Theorem C12_exact_inexact_roundtrip : forall f,
+  fvalid f = true -> f_is_finite f = true -> f <> S754_zero true -> fits_int64 f = true ->
+  exists v, call CExactNum [NFloat f] None = RVals [v]
+    /\ call CInexactNum [v] None = RVals [NFloat f].
+Proof. exact exact_inexact_roundtrip. Qed.
+Print Assumptions C12_exact_inexact_roundtrip.
+
+Theorem C12_roundtrip_outside_int64 : forall s m e, 0 <= e -> in_int (smant s m * 2 ^ e) = false ->
+  to_f64 (normalize_rat (f_to_Q (S754_finite s m e))) = S754_infinity s.
+Proof. exact roundtrip_outside_int64. Qed.
+Print Assumptions C12_roundtrip_outside_int64.
+
+(* math:min / math:max with a float among the arguments: every argument converted,
+   then a left fold of Go's math.Min / math.Max (f_min / f_max: -Inf/+Inf first, then
+   NaN, then signed zeros) from the first argument.  math:pow with an inexact argument
+   is Go's math.Pow, which is not an IEEE-754 basic operation; it is outside the
+   property and the model (RUnmodelled). *)
+Theorem C12_minmax_float_fold : forall (lt : bool) a r, has_inexact (a :: r) ->
+  call (if lt then CMin else CMax) (a :: r) None =
+  RVals [NFloat (fold_left (if lt then f_min else f_max) (map to_f64 r) (to_f64 a))].
+Proof. exact minmax_float_fold. Qed.
+Print Assumptions C12_minmax_float_fold.
 
 (* the oracle evaluated on the implementation's observations implies the
    Prop-level specification *)
@@ -124,6 +150,11 @@ Example C12_ex_order :
   call CAdd [NFloat (fb 4846369599423283200); NFloat (fb 4607182418800017408); NFloat (fb 14069741636278059008)] None
   <> call CAdd [NFloat (fb 4846369599423283200); NFloat (fb 14069741636278059008); NFloat (fb 4607182418800017408)] None.
 Proof. vm_compute. discriminate. Qed.
+Example C12_ex_roundtrip :
+  call CInexactNum [NRat (3602879701896397 # 36028797018963968)] None = RVals [NFloat (fb 4591870180066957722)]
+  /\ call CExactNum [NFloat (fb 4591870180066957722)] None = RVals [NRat (3602879701896397 # 36028797018963968)]
+  /\ fits_int64 (fb 5055640609639927018) = false.
+Proof. repeat split; vm_compute; reflexivity. Qed.
 Example C12_ex_neg_zero :
   call CSub [NFloat (fb 0)] None = RVals [NFloat (S754_zero true)]
   /\ call CAdd [NFloat (S754_zero true)] None = RVals [NFloat (S754_zero false)]
